@@ -411,8 +411,19 @@ func Check(id, tier string) int {
 	// was hit by this run
 	for _, f := range findings {
 		if f.Open && f.Property == id {
-			if n := knownHit[f.ID]; n > 0 {
-				fmt.Printf("KNOWN-FINDING: property=%s id=%s %s (cases in this run: %d)\n", id, f.ID, f.What, n)
+			n := knownHit[f.ID]
+			witnessFails := false
+			if f.Witness != "" {
+				if wc, err := report.LoadCase(filepath.Join(root(), f.Witness)); err != nil {
+					m.Internal = append(m.Internal, "known finding "+f.ID+": "+err.Error())
+				} else if _, ok, err := report.Replay(wc); err != nil {
+					m.Internal = append(m.Internal, "known finding "+f.ID+": "+err.Error())
+				} else {
+					witnessFails = !ok
+				}
+			}
+			if n > 0 || witnessFails {
+				fmt.Printf("KNOWN-FINDING: property=%s id=%s %s (witness still fails: %v; cases in this run: %d)\n", id, f.ID, f.What, witnessFails, n)
 			}
 		}
 	}
